@@ -28,7 +28,7 @@ LEVEL_NOTE = "Trusts py_gql.lang.parse to build the AST handed to the rule (cove
 DESIGN_REF = "DESIGN.md section 6, C19"
 RULE = (
     "cases = all selection trees with <= N nodes over {leaf a, second spread of fragment 1 or 2, t{..}, ...{..}, ... on Query{..}, ...Frag{..}} width<=2 (acyclic), "
-    "plus single deviations (directive variant / alias / duplicated spread) at every node, plus two-operation documents x operation_name; "
+    "plus single deviations (directive variant / @skip and @include together in both orders / alias / duplicated spread) at every node, plus two-operation documents x operation_name; "
     "evaluation = one rule call (document, limit, variables); non-trivial = distinct (document, variables) whose reference depth >= 1 "
     "or that contains a fragment or directive"
 )
@@ -250,6 +250,17 @@ def _deviations(ops_sels_of, frags0, ops0, tag, uses_var_everywhere):
                 # keep multi-operation documents to literal conditions
                 continue
             yield _mk_case(ops, frags, var=var, tag=tag + "/dir")
+        # both directives on one node, every combination of conditions, in both written orders
+        for sv in ("true", "false"):
+            for iv in ("true", "false"):
+                for order in (("skip", "include"), ("include", "skip")):
+                    ops, frags = _copy(ops0), _copy(frags0)
+                    lst, i = _all_nodes([o["sels"] for o in ops], frags)[pos]
+                    node = lst[i]
+                    dirs = node[3] if node[0] == "f" else node[2]
+                    for d in order:
+                        dirs.append([d, {"if": sv if d == "skip" else iv}])
+                    yield _mk_case(ops, frags, tag=tag + "/dir2")
         ops, frags = _copy(ops0), _copy(frags0)
         lst, i = _all_nodes([o["sels"] for o in ops], frags)[pos]
         node = lst[i]
